@@ -564,7 +564,22 @@ def r3b_one_scratch_borrow_at_a_time_for_the_run(ctx):
         ctx.bad("scratch-borrows|resolver-still-held", rs.where(frame.block), "run_source takes the frame's borrow of the scratch arena while the resolver's borrow of the same arena is still alive (it is dropped at the end of the block, after the run): the resolver's working memory and the rendered warnings stay under the runtime's frames, so a program that fits the frame arena of the isolated configuration aborts with `memory allocation failed` in the CLI")
 
 
-RULES = [("C14-R1", r1_exit_status), ("C14-R2", r2_same_wiring), ("C14-R2b", r2b_cli_prints_the_library_rendering), ("C14-R2c", r2c_routes_are_labelled_apart), ("C14-R3", r3_scratch_rule), ("C14-R3b", r3b_one_scratch_borrow_at_a_time_for_the_run), ("C14-R4", r4_global_state), ("C14-R5", r5_report_gets_the_text_it_parsed), ("C14-R6", r6_errors_anywhere_count), ("C14-R7", r7_scratch_arenas_get_the_configured_capacity), ("C14-R8", r8_every_route_runs_the_text_it_was_given), ("C14-R9", r9_shout_prints_the_value_it_records), ("C14-R10", r10_script_arguments_accept_every_text), ("C14-R11", r11_the_shared_arenas_are_not_wasted), ("C14-R12", r12_the_cli_locates_what_the_library_found)]
+def r13_the_record_is_what_was_printed(ctx):
+    """The library reports Runtime.output; the CLI prints as it goes.  The two agree only while the recorded copy of a shouted
+    value stays intact after the frame it was computed on is gone: shout promotes its argument relative to the *frame* arena
+    (a value that merely borrows frame memory is copied), like every other store.  Shared with C02-R5 (every copy routine is
+    called with the frame arena in the frame position)."""
+    from .c02 import r5_promotion_complete
+    r5_promotion_complete(ctx)
+    # ... and what the CLI shows around it: a line read from standard input is delivered whole (C17-R3: read_line removes
+    # the terminator it found, nothing else), and the markers under a diagnostic are as wide as the text looks (C07-R18)
+    from .c17 import r3_each_byte_once_and_unchanged
+    from .c07 import r18_marker_widths_are_measured_in_columns
+    r3_each_byte_once_and_unchanged(ctx)
+    r18_marker_widths_are_measured_in_columns(ctx)
+
+
+RULES = [("C14-R1", r1_exit_status), ("C14-R2", r2_same_wiring), ("C14-R2b", r2b_cli_prints_the_library_rendering), ("C14-R2c", r2c_routes_are_labelled_apart), ("C14-R3", r3_scratch_rule), ("C14-R3b", r3b_one_scratch_borrow_at_a_time_for_the_run), ("C14-R4", r4_global_state), ("C14-R5", r5_report_gets_the_text_it_parsed), ("C14-R6", r6_errors_anywhere_count), ("C14-R7", r7_scratch_arenas_get_the_configured_capacity), ("C14-R8", r8_every_route_runs_the_text_it_was_given), ("C14-R9", r9_shout_prints_the_value_it_records), ("C14-R10", r10_script_arguments_accept_every_text), ("C14-R11", r11_the_shared_arenas_are_not_wasted), ("C14-R12", r12_the_cli_locates_what_the_library_found), ("C14-R13", r13_the_record_is_what_was_printed)]
 
 EXPLANATION = (
     "R1: every return of cmd::run_source that yields ExitCode::SUCCESS is edge-dominated by 'no parse diagnostics', 'no "
@@ -592,4 +607,7 @@ EXPLANATION += (
 )
 EXPLANATION += (
     ' Round 6: R2 also requires the stdin reading loop to end only when a read returns 0.'
+)
+EXPLANATION += (
+    ' Round 7: R13 shares C02-R5 (the recorded copy of a shouted value is promoted relative to the frame), C17-R3 (a line read is delivered whole) and C07-R18 (marker widths).'
 )
